@@ -80,24 +80,31 @@ def to_symbolic_model(model: Model) -> SymbolicModel:
 
     symbols: dict[str, sympy.Symbol | sympy.Expr] = variables | parameters | data  # type: ignore
 
-    # Insert derived into symbols
-    for k, v in model.get_raw_derived().items():
-        if (
-            expr := fn_to_sympy(v.fn, origin=k, model_args=[symbols[i] for i in v.args])
-        ) is None:
-            msg = f"Unable to parse derived value '{k}'"
-            raise ValueError(msg)
-        symbols[k] = expr
-
-    # Insert derived into reaction via args
+    # Insert derived quantities and reactions in dependency order, as either
+    # may name the other (and derived quantities each other in any order)
+    derived = model.get_raw_derived()
+    reactions = model.get_raw_reactions()
     rxns: dict[str, sympy.Expr] = {}
-    for k, v in model.get_raw_reactions().items():
-        if (
-            expr := fn_to_sympy(v.fn, origin=k, model_args=[symbols[i] for i in v.args])
-        ) is None:
-            msg = f"Unable to parse reaction '{k}'"
-            raise ValueError(msg)
-        rxns[k] = expr
+    for k in cache.order:
+        if (der := derived.get(k)) is not None:
+            if (
+                expr := fn_to_sympy(
+                    der.fn, origin=k, model_args=[symbols[i] for i in der.args]
+                )
+            ) is None:
+                msg = f"Unable to parse derived value '{k}'"
+                raise ValueError(msg)
+            symbols[k] = expr
+        elif (rxn := reactions.get(k)) is not None:
+            if (
+                expr := fn_to_sympy(
+                    rxn.fn, origin=k, model_args=[symbols[i] for i in rxn.args]
+                )
+            ) is None:
+                msg = f"Unable to parse reaction '{k}'"
+                raise ValueError(msg)
+            symbols[k] = expr
+            rxns[k] = expr
 
     # Go through stoichiometries & derived stoichiometries
     eqs: dict[str, sympy.Expr] = {}
@@ -108,15 +115,22 @@ def to_symbolic_model(model: Model) -> SymbolicModel:
             )
     for cpd, dstoich in cache.dyn_stoich_by_cpds.items():
         for rxn, der in dstoich.items():
-            eqs[cpd] = eqs.get(cpd, sympy.Float(0.0)) + fn_to_sympy(
-                der.fn,
-                [symbols[i] for i in der.args] * rxns[rxn],  # type: ignore
-            )  # type: ignore
+            if (
+                factor := fn_to_sympy(
+                    der.fn,
+                    origin=f"{rxn}:{cpd}",
+                    model_args=[symbols[i] for i in der.args],
+                )
+            ) is None:
+                msg = f"Unable to parse stoichiometry of '{cpd}' in '{rxn}'"
+                raise ValueError(msg)
+            eqs[cpd] = eqs.get(cpd, sympy.Float(0.0)) + factor * rxns[rxn]  # type: ignore
 
     return SymbolicModel(
         variables=variables,
         parameters=parameters,
-        eqs=[eqs[i] for i in cache.var_names],
+        # Variables no reaction touches have a zero derivative
+        eqs=[eqs.get(i, sympy.Float(0.0)) for i in cache.var_names],
         initial_conditions=model.get_initial_conditions(),
         parameter_values=model.get_parameter_values(),
         external=data | surrogates,
